@@ -124,6 +124,10 @@ static void build_ops(void) {
             add_op(OP_CLRBITS, r, repbit[r][b], 0, NULL);
         }
     }
+    /* a status-byte bit the library does not maintain itself (bit 4, message available): the application sets and clears it, and
+     * it takes part in MSS like the four summary bits; SRE carries it in its third representative mask */
+    add_op(OP_SETBITS, SCPI_REG_STB, 0x10, 0, NULL);
+    add_op(OP_CLRBITS, SCPI_REG_STB, 0x10, 0, NULL);
     add_op(OP_PUSH, 0, 0, -100, NULL);     /* CER = ESR bit 5 = first representative bit of ESR/ESE */
     add_op(OP_PUSH, 0, 0, -600, NULL);     /* URQ = ESR bit 6 = second representative bit */
     add_op(OP_PUSH, 0, 0, -900, NULL);     /* no class */
@@ -206,6 +210,7 @@ static int model_mss(const uint16_t * r, int nerr) {
     if (r[SCPI_REG_OPER] & r[SCPI_REG_OPERE]) stb |= STB_OPS;
     if (r[SCPI_REG_QUES] & r[SCPI_REG_QUESE]) stb |= STB_QES;
     if (nerr > 0) stb |= STB_QMA;
+    stb |= (uint16_t) (r[SCPI_REG_STB] & 0x13);      /* bits 0, 1 and 4 belong to the application and are what it last wrote */
     return (stb & r[SCPI_REG_SRE] & 0xff & ~STB_SRQ) != 0;
 }
 
@@ -338,6 +343,7 @@ static void make_base(int base) {
     memcpy(&ctx, &ctx0, sizeof ctx); memset(ering, 0, sizeof ering);
     if (base >= 1) { SCPI_RegSet(&ctx, SCPI_REG_ESE, 0xFFFF); SCPI_RegSet(&ctx, SCPI_REG_OPERE, 0xFFFF); SCPI_RegSet(&ctx, SCPI_REG_QUESE, 0xFFFF); SCPI_RegSet(&ctx, SCPI_REG_SRE, 0xFFFF); }
     if (base >= 2) { SCPI_RegSet(&ctx, SCPI_REG_OPERC, 0x5555); SCPI_RegSet(&ctx, SCPI_REG_QUESC, 0xAAAA); SCPI_RegSet(&ctx, SCPI_REG_ESR, 0x00A5); SCPI_ErrorPush(&ctx, -900); }
+    if (base == 4) { SCPI_RegSet(&ctx, SCPI_REG_SRE, 0x00FF); SCPI_RegSet(&ctx, SCPI_REG_ESR, 0x8100); SCPI_RegSet(&ctx, SCPI_REG_OPERC, 0x4200); SCPI_RegSet(&ctx, SCPI_REG_QUESC, 0x2400); return; }
     if (base == 3) { SCPI_RegSet(&ctx, SCPI_REG_ESE, 0x8000); SCPI_RegSet(&ctx, SCPI_REG_OPERE, 0x0100); SCPI_RegSet(&ctx, SCPI_REG_QUESE, 0x0080); SCPI_RegSet(&ctx, SCPI_REG_SRE, 0x00A8); }
 }
 static unsigned long long sweep_values(void) {
@@ -392,6 +398,49 @@ static unsigned long long sweep_values(void) {
                 e1 = SCPI_RegGet(&ctx, (scpi_reg_name_t) ev);
                 if (e1 != (uint16_t) (e0 | (want & ~val0))) viol_plain("c12/condition-not-latched/mask-sweep", "base state %d, %s 0x%x -> 0x%x by %s(0x%x): %s = 0x%x, expected 0x%x", base, regname[r], val0, want, k ? "RegClearBits" : "RegSetBits", mask, regname[ev], e1, (uint16_t) (e0 | (want & ~val0)));
             }
+        }
+    }
+    {   /* the enable COMMANDS with every argument 0..65535, from the base states and from one whose pending events sit in the upper
+         * byte: whatever the command stores, the summary bits must agree with what the registers read back afterwards */
+        static const struct { int reg; const char * cmd; } en[4] = {{SCPI_REG_ESE, "*ESE"}, {SCPI_REG_SRE, "*SRE"}, {SCPI_REG_OPERE, "STAT:OPER:ENAB"}, {SCPI_REG_QUESE, "STAT:QUES:ENAB"}};
+        char t[48];
+        for (base = 0; base < 5; base++) for (i = 0; i < 4; i++) for (v = 0; v < 65536; v++) {
+            int l;
+            if (mc_thorough ? 0 : (base == 1 || base == 3) && (v & 0xff) != 0 && (v >> 8) != 0 && (v & (v - 1))) continue;      /* quick: two of the five bases only with one-byte or one-bit values */
+            if (!MC_CASE()) continue;
+            mc_case_tag = "enable-command-sweep"; mc_case_i[0] = base; mc_case_i[1] = en[i].reg; mc_case_i[2] = v;
+            make_base(base);
+            l = snprintf(t, sizeof t, "%s %u\n", en[i].cmd, v);
+            SCPI_Input(&ctx, t, l);
+            n++;
+            if (do_c11) plain_c11(en[i].cmd, en[i].reg, v, base);
+            if (do_c11 && v < 256) { l = snprintf(t, sizeof t, "%s 0\n", en[i].cmd); SCPI_Input(&ctx, t, l); plain_c11(en[i].cmd, en[i].reg, 0, base); n++; }
+        }
+    }
+    {   /* status-byte bits owned by the application (0, 1, 4): set / cleared in every combination against every SRE byte, SRE written
+         * before or after and through the register call or *SRE; they take part in MSS like the library's own summary bits */
+        static const uint16_t ab[3] = {0x01, 0x02, 0x10};
+        unsigned m, sre, ord;
+        char t[32];
+        for (base = 0; base < 5; base++) for (m = 1; m < 8; m++) for (sre = 0; sre < 256; sre++) for (ord = 0; ord < 3; ord++) {
+            uint16_t mask = 0; int b2, l;
+            if (!MC_CASE()) continue;
+            for (b2 = 0; b2 < 3; b2++) if (m & (1u << b2)) mask |= ab[b2];
+            mc_case_tag = "application-stb-bits"; mc_case_i[0] = base; mc_case_i[1] = mask; mc_case_i[2] = sre; mc_case_i[3] = ord;
+            make_base(base);
+            if (base >= 1 && base <= 3) { SCPI_RegSet(&ctx, SCPI_REG_ESE, 0); SCPI_RegSet(&ctx, SCPI_REG_OPERE, 0); SCPI_RegSet(&ctx, SCPI_REG_QUESE, 0); }
+            l = snprintf(t, sizeof t, "*SRE %u\n", sre);
+            if (ord == 0) SCPI_RegSet(&ctx, SCPI_REG_SRE, (scpi_reg_val_t) sre);
+            SCPI_RegSetBits(&ctx, SCPI_REG_STB, mask);
+            if (do_c11) plain_c11("RegSetBits", SCPI_REG_STB, mask, base);
+            if (ord == 1) SCPI_RegSet(&ctx, SCPI_REG_SRE, (scpi_reg_val_t) sre);
+            if (ord == 2) SCPI_Input(&ctx, t, l);
+            if (do_c11) plain_c11("SRE write after RegSetBits", SCPI_REG_STB, mask, base);
+            SCPI_ErrorPush(&ctx, -100);
+            if (do_c11) plain_c11("ErrorPush after RegSetBits", SCPI_REG_STB, mask, base);
+            SCPI_RegClearBits(&ctx, SCPI_REG_STB, (scpi_reg_val_t) (mask & 0x11));
+            if (do_c11) plain_c11("RegClearBits", SCPI_REG_STB, mask & 0x11, base);
+            n += 4;
         }
     }
     return n;
@@ -483,10 +532,10 @@ static void set_bits(int focus, int wide, int narrow) {
         nbits[r] = (g == focus) ? wide : narrow;
     }
     /* SRE: parent bit of the focus group (all three parents when there is no focus), the
-     * error-available bit, and bit 6 together with a bit above 8 */
+     * error-available bit, and bit 6 together with a bit above 8 and the application's bit 4 */
     repbit[SCPI_REG_SRE][0] = focus < 0 ? (STB_ESR | STB_OPS | STB_QES) : parent[focus];
     repbit[SCPI_REG_SRE][1] = STB_QMA;
-    repbit[SCPI_REG_SRE][2] = 0x40 | 0x200;
+    repbit[SCPI_REG_SRE][2] = 0x40 | 0x200 | 0x10;
     nbits[SCPI_REG_SRE] = 3;
     nbits[SCPI_REG_STB] = 0;
 }
